@@ -137,3 +137,8 @@ func ZZGovOverlay(old, opt *GovParams) *GovParams {
 func ZZSetSigning(p *GovParams, window, minSigned int64) {
 	p.signedBlocksWindow, p.minSignedBlocks = window, minSigned
 }
+
+// ZZSetRatios sets the three stake-limit ratios of p.
+func ZZSetRatios(p *GovParams, minSelf, maxUpdatable, maxIndividual int64) {
+	p.minSelfStakeRatio, p.maxUpdatableStakeRatio, p.maxIndividualStakeRatio = minSelf, maxUpdatable, maxIndividual
+}
